@@ -9,9 +9,10 @@
     - [mkvar]               Variable.__init__  (initial_value := value at construction)
     - [reset_vars]/[treset] Variable.reset, Perturbation.reset, Tolerancing.reset (perturbations first, then compensators)
     - [apply_pert]          Perturbation.apply
-    - [fun_call]/[compensate] OptimizerGeneric._fun (update every variable, then Optic.update()) folded over the
-                            sequence of points at which scipy evaluates the objective (the trace [tr] is an arbitrary
-                            input: nothing is assumed about the optimiser, the lens is left at the last evaluated point)
+    - [fun_call]/[compensate] OptimizerGeneric._fun / _apply_solution (update every variable, then Optic.update()) folded
+                            over the sequence of points at which scipy evaluates the objective followed by the returned
+                            solution that optimize() sets explicitly (the trace [tr] is an arbitrary input: nothing is
+                            assumed about the optimiser, the lens is left at the last point of the trace)
     - [trial]/[run]         loop bodies of SensitivityAnalysis.run / MonteCarlo.run
     - [sens_run]            SensitivityAnalysis.run (final reset);  [mc_run] MonteCarlo.run (NO final reset, as in the code)
     - concrete lens [clens], [raw_get]/[raw_set], [cget]/[cset] : optic.set_radius/set_conic/set_thickness/set_index/
